@@ -91,6 +91,8 @@ class SpatialLayer(Layer):
             raise Unsupported("physical derivative of the reference coordinate symbol")
         if name == "__one__":
             return None
+        if base == "x" and self.kind == "x" and world.x_via_X is None and not dirs:
+            return ("const", 1 if comp[0] == self.k else 0)      # dx_i/dx_k (atoms world without a cell model)
         if base in self.seed:
             if dirs:
                 raise Unsupported("second derivative of a seeded operand")
@@ -524,8 +526,18 @@ def _den(w: World, e, comp, env):
     if isinstance(e, C.VariableDerivative):
         f, v = ops
         rf = len(f.ufl_shape)
+        if isinstance(v, C.Coefficient):
+            cv = tuple(comp[rf:])
+
+            def seed(desc, world):
+                name, c_, idx, dirs = desc
+                if dirs:
+                    return None            # derivatives of the coefficient are held fixed (partial derivative)
+                return ("const", 1 if tuple(c_) == cv else 0)
+            layer = GateauxLayer({f"w{v.count()}": seed})
+            return w.derive(layer, lambda w2: den(w2, f, comp[:rf], env))
         if not isinstance(v, C.Variable):
-            raise Unsupported("VariableDerivative w.r.t. non-Variable in the spec")
+            raise Unsupported("VariableDerivative w.r.t. something that is neither a Variable nor a Coefficient")
         layer = VarLayer(v.label(), comp[rf:])
         return w.derive(layer, lambda w2: den(w2, f, comp[:rf], env))
 
@@ -586,17 +598,19 @@ def _power(w, a, bexpr, d):
 
 def _variable(w, e, comp, env):
     expr, label = e.ufl_operands
-    for i, L in enumerate(w.layers):
-        if isinstance(L, VarLayer) and L.label == label:
-            # independent variable of layer i: value = value of expr with layer i blind,
-            # derivative along layer i = indicator(comp == cv)
-            layers = list(w.layers)
-            layers[i] = NullLayer()
-            base = den(w.with_layers(layers), expr, comp, env)
-            if tuple(comp) != L.cv:
-                return base
-            return N.add(base, _unit(len(w.layers), i))
-    return den(w, expr, comp, env)
+    hits = [i for i, L in enumerate(w.layers) if isinstance(L, VarLayer) and L.label == label]
+    if not hits:
+        return den(w, expr, comp, env)
+    # independent variable of every matching layer: value = value of expr with those layers blind,
+    # derivative along layer i = indicator(comp == cv_i)
+    layers = list(w.layers)
+    for i in hits:
+        layers[i] = NullLayer()
+    v = den(w.with_layers(layers), expr, comp, env)
+    for i in hits:
+        if tuple(comp) == w.layers[i].cv:
+            v = N.add(v, _unit(len(w.layers), i))
+    return v
 
 
 def _unit(n, i):
